@@ -695,6 +695,10 @@ func (fx *fnExec) evalCall(e *Expr, env *Env) TV {
 			} else if ref, isNil, _, ok := refOf(tv.V); ok && fx.g.isNodeRefType(tv.T) {
 				t := fx.gposOf(env.old, ref)
 				lb = ite(and(not(isNil), app("<=", "0", t), app("<", t, lb)), t, lb)
+			} else if sv, isSl := tv.V.(SliceV); isSl && fx.g.isNodeRefType(sv.Elem) {
+				// a list of nodes handed in: it starts where its first element starts
+				t := fx.gposOf(env.old, fx.elemRef(sv, "0"))
+				lb = ite(and(app(">", sv.Len, "0"), app("<=", "0", t), app("<", t, lb)), t, lb)
 			}
 		}
 		return TV{Sc{fx.s.define("lb", SInt, lb), SInt}, tInt}
